@@ -23,7 +23,7 @@ pub struct SoupCase {
 const TOKENS: &[&str] = &[
     "p", "div", ".a", "#i0", "*", ">", " ", "  ", "\n", ",", "{", "}", "(", ")", "[", "]", ";", ":", "::before", "::after", ":nth-child(", ":nth-child(2n+1)", ":hover", "color", "background",
     "background-color", "display", "none", "block", "white-space", "pre", "content", "height", "max-height", "overflow", "hidden", "0", "0px", "1e9", "99999999999999999999", "-2147483648", "2147483647n", "-n+3", "n-2147483647",
-    "#", "#f00", "#ff0000", "#12", "#zz", "red", "rgb(", "rgb(1,2,3)", "rgb(300,1,1)", "url(", "url(x)", "\"", "'", "\"str\"", "'unterminated", "\\", "\\41 ", "\\", "/*", "*/", "/* c */", "<!--", "-->", "@", "@media", "@import",
+    "#", "#f00", "#ff0000", "#12", "#zz", "red", "rgb(", "rgb(1,2,3)", "rgb(300,1,1)", "url(", "url(x)", "\"", "'", "\"str\"", "'unterminated", "\\", "\\41 ", "\\d800 ", "\\dfff", "\\dc00x", "\\110000 ", "\\0 ", "\\ffffff", ".\\d800 x", "/*", "*/", "/* c */", "<!--", "-->", "@", "@media", "@import",
     "@x", "!important", "!", "important", "%", "12%", "+", "-", "--x", ".", "..", "e", "é", "中", "\u{0}", "\u{feff}", "\t", "\r\n", "\x0c", "=", "~", "|", "^", "$", "&", "<", "a:not(.b)", "p+p", "1.5em", ".5", "5.", "+.5e-3",
 ];
 
@@ -132,6 +132,9 @@ fn soup_regressions() -> Vec<SoupCase> {
         "\\",
         "p:nth-child(2n + 1) { color: red }",
         "div * { color: red }",
+        ".\\d800 x {}",
+        "p\\dfff{color:red}",
+        "@media print { .x { margin: 0; } .b { color: #00f } }",
     ]
     .iter()
     .map(|c| SoupCase { css: c.to_string(), doc: d.clone(), width: 20 })
